@@ -339,3 +339,8 @@ _COPY = [("contracts.accessors", "ArrayCopy"), ("contracts.accessors", "Quantity
 PLANS["C18"].proofs += _COPY
 PLANS["C11"].proofs += _COPY
 PLANS["C11"].proofs += [("contracts.registry", "RegistryFromJson"), ("contracts.registry", "RegistryInit")]
+
+# C17 'combining integer-typed / complex data in different commensurable units': the dtype clauses of the
+# commensurable ufunc contracts (result of a rescaling operation is floating point; complex data are never cast to
+# a real dtype on the way)
+PLANS["C17"].proofs += _sel(lambda n: _NONTEMP(n) and _COMM(n) and (_QQ(n) or n.startswith(_REPR)) and "arctan2" not in n)
